@@ -510,6 +510,501 @@ class Hist:
             self.g_define(True)
 
 
+# =============================================================================
+# the value kinds other than f64: every numeric kind, bool and string
+# =============================================================================
+from fractions import Fraction
+
+K_ALL = ms.ALL_KINDS                      # 10 integer kinds, f32, f64, r64, c64, bool, string
+WORDS = ["a", "bc", "dog", "x y", "q7", "mech", "", "zz"]
+INVALID_RHS = ["var", q("!no-value")]     # a right-hand side that denotes nothing: the definition must fail
+
+
+def kvalue(rng, k, big=False, nonzero=False):
+    """a value of kind k that its literal denotes exactly"""
+    if k in ms.INT_KINDS:
+        lo, hi = ms.kind_range(k)
+        if big and rng.random() < 0.5:
+            v = rng.randint(max(lo, -130), min(hi, 260))
+        else:
+            v = rng.randint(0 if (lo == 0 or rng.random() < 0.7) else -12, 12)
+        if nonzero and v == 0:
+            v = 3
+        return v
+    if k == "f32":
+        v = float(rng.randint(-24, 48)) / rng.choice([1, 1, 2, 4])
+        return 2.0 if (nonzero and v == 0) else v
+    if k == "f64":
+        v = num(rng)
+        return 2.0 if (nonzero and v == 0) else v
+    if k == "r64":
+        v = Fraction(rng.randint(-9, 12), rng.randint(1, 6))
+        return Fraction(2, 3) if (nonzero and v == 0) else v
+    if k == "c64":
+        return (float(rng.randint(-6, 9)), float(rng.randint(-6, 9)))
+    if k == "bool":
+        return rng.random() < 0.5
+    if k == "string":
+        return rng.choice(WORDS)
+    raise ValueError(k)
+
+
+def klit(rng, k, v):
+    """source of a literal of kind k"""
+    if k in ms.INT_KINDS:
+        if k[0] == "u" and rng.random() < 0.25:
+            return "%d%s" % (v, k)                    # suffix form, unsigned only
+        return "%d<%s>" % (v, k)
+    if k == "f32":
+        return "%s<f32>" % ms.fmt_float(v)
+    if k == "f64":
+        return ms.fmt_float(v) + ("<f64>" if rng.random() < 0.3 else "")
+    if k == "r64":
+        if v.denominator == 1 and rng.random() < 0.5:
+            return "%d<r64>" % v.numerator
+        return "%d/%d" % (v.numerator, v.denominator)
+    return ms.lit(k, v)
+
+
+def ksx(k, v):
+    """history form of a scalar of kind k"""
+    if k == "f64":
+        return ["num", nsx(v)]
+    return ["ks", k, ms.payload(k, v)]
+
+
+def kmat_sx(k, r, c, d):
+    if k == "f64":
+        return ["mat", r, c, [nsx(x) for x in d]]
+    return ["km", k, r, c, [ms.payload(k, x) for x in d]]
+
+
+def kmat_src(rng, k, r, c, d):
+    return "[" + "; ".join(" ".join(klit(rng, k, d[j * r + i]) for j in range(c)) for i in range(r)) + "]"
+
+
+def plain(k, v):
+    """the value written without its kind (the right-hand side of an annotated definition), or None"""
+    if k in ms.INT_KINDS or k in ("f32", "f64"):
+        return ms.fmt_float(float(v))
+    if k == "r64" and v.denominator in (1, 2, 4):
+        return ms.fmt_float(float(v))
+    if k in ("bool", "string", "c64"):
+        return ms.lit(k, v)
+    return None
+
+
+class KT:
+    """type of a name in the kinds stream: scalar / matrix of kind k, tuple or record of scalars"""
+    def __init__(self, tag, k=None, r=0, c=0, elems=None):
+        self.tag, self.k, self.r, self.c, self.elems = tag, k, r, c, elems
+
+
+class KHist(Hist):
+    def __init__(self, rng, names, p_invalid, kinds, containers=False):
+        Hist.__init__(self, rng, names, p_invalid, dict(barevar=0.0, varatom=False, destr=False, longcol=False))
+        self.ks = kinds
+        self.containers = containers
+        self.kseen = set()
+
+    def kind(self):
+        k = self.rng.choice(self.ks)
+        self.kseen.add(k)
+        return k
+
+    def other_kind(self, k):
+        c = [x for x in K_ALL if x != k]
+        return self.rng.choice(c)
+
+    def scalar(self, k, **kw):
+        v = kvalue(self.rng, k, **kw)
+        return klit(self.rng, k, v), ksx(k, v), KT("s", k)
+
+    def matrix(self, k, r=None, c=None, **kw):
+        if r is None:
+            r, c = rand_shape(self.rng)
+        d = [kvalue(self.rng, k, **kw) for _ in range(r * c)]
+        return kmat_src(self.rng, k, r, c, d), kmat_sx(k, r, c, d), KT("m", k, r, c)
+
+    def same(self, t, **kw):
+        return self.scalar(t.k, **kw) if t.tag == "s" else self.matrix(t.k, t.r, t.c, **kw)
+
+    # -- definitions in every syntactic form
+    def k_define(self, invalid):
+        rng = self.rng
+        mu = rng.random() < 0.65
+        pre = "~" if mu else ""
+        und = self.undefined()
+        k = self.kind()
+        if invalid:
+            c = rng.random()
+            if self.env and c < 0.45:                          # redefinition, in any form
+                x = rng.choice(self.defined())
+                form = rng.random()
+                if form < 0.4:
+                    e = self.scalar(k)
+                    src = "%s%s := %s" % (pre, x, e[0])
+                elif form < 0.7 and plain(k, kvalue(rng, k)) is not None:
+                    v = kvalue(rng, k)
+                    e = (None, ksx(k, v))
+                    src = "%s%s<%s> := %s" % (pre, x, k, plain(k, v))
+                else:
+                    e = self.matrix(k)
+                    src = "%s%s := %s" % (pre, x, e[0])
+                self.emit("def", src, ["def", int(mu), q(x), e[1]], True)
+                return True
+            if not und:
+                return False
+            x = rng.choice(und)
+            if c < 0.6:                                        # undefined variable on the right
+                y = rng.choice([n for n in und if n != x] or [x])
+                self.emit("def", "%s%s<%s> := %s" % (pre, x, k, y) if rng.random() < 0.5 else "%s%s := %s" % (pre, x, y),
+                          ["def", int(mu), q(x), ["var", q(y)]], True)
+                return True
+            # an annotation the right-hand side cannot be converted to: the definition has no value and must fail
+            forms = ['%s<[%s]:1,3> := [1 2]' % (x, k), '%s<[%s]:2,2> := [1 2 3]' % (x, k), '%s<[%s]:3> := [1 2 3]' % (x, k)]
+            if k in ms.INT_KINDS or k in ("f32", "f64"):
+                forms += ['%s<%s> := "s"' % (x, k), '%s<%s> := true' % (x, k), '%s<%s> := [1 2]' % (x, k), '%s<%s> := 1/2' % (x, k)]
+            if k == "bool":
+                forms += ['%s<bool> := 5' % x, '%s<bool> := "s"' % x]
+            if k == "c64":
+                forms += ['%s<c64> := 5' % x, '%s<[c64]:1,3> := [1 2 3]' % x]
+            self.emit("def", pre + rng.choice(forms), ["def", int(mu), q(x), INVALID_RHS], True)
+            return True
+        if not und:
+            return False
+        x = rng.choice(und)
+        form = rng.random()
+        if form < 0.3:                                         # x := 5<k>
+            e = self.scalar(k, big=rng.random() < 0.3)
+            src = "%s%s := %s" % (pre, x, e[0])
+        elif form < 0.5:                                       # x<k> := 5
+            v = kvalue(rng, k)
+            pl = plain(k, v)
+            if pl is None:
+                return False
+            e = (None, ksx(k, v), KT("s", k))
+            src = "%s%s<%s> := %s" % (pre, x, k, pl)
+        elif form < 0.58:                                      # x<k2> := 5<k1>, both integer kinds
+            if k not in ms.INT_KINDS:
+                return False
+            k1 = rng.choice(ms.INT_KINDS)
+            v = rng.randint(0, 100)
+            e = (None, ksx(k, v), KT("s", k))
+            src = "%s%s<%s> := %d<%s>" % (pre, x, k, v, k1)
+        elif form < 0.75:                                      # m := [1<k> 2<k>]
+            e = self.matrix(k, big=rng.random() < 0.3)
+            src = "%s%s := %s" % (pre, x, e[0])
+        elif form < 0.9:                                       # m<[k]:r,c> := [1 2 3]   /   m<[k]> := [1 2 3]
+            r, c = rand_shape(rng)
+            d = [kvalue(rng, k) for _ in range(r * c)]
+            if k == "c64" or any(plain(k, v) is None for v in d):
+                return False
+            body = "[" + "; ".join(" ".join(plain(k, d[j * r + i]) for j in range(c)) for i in range(r)) + "]"
+            e = (None, kmat_sx(k, r, c, d), KT("m", k, r, c))
+            ann = "<[%s]:%d,%d>" % (k, r, c) if rng.random() < 0.7 else "<[%s]>" % k
+            src = "%s%s%s := %s" % (pre, x, ann, body)
+        else:                                                  # tuple / record of scalars of several kinds
+            n = rng.randint(1, 3)
+            ats = [self.scalar(self.kind()) for _ in range(n)]
+            if rng.random() < 0.5 and n >= 2:
+                e = ("(" + ", ".join(a[0] for a in ats) + ")", ["tup"] + [a[1] for a in ats], KT("tup", elems=[a[2] for a in ats]))
+            else:
+                fs = FIELDS[:n]
+                e = ("{" + ", ".join("%s: %s" % (f, a[0]) for f, a in zip(fs, ats)) + "}",
+                     ["rec"] + [[q(f), a[1]] for f, a in zip(fs, ats)], KT("rec", elems=list(zip(fs, [a[2] for a in ats]))))
+            src = "%s%s := %s" % (pre, x, e[0])
+        self.emit("def", src, ["def", int(mu), q(x), e[1]], False)
+        self.env[x] = dict(type=e[2], mut=mu)
+        return True
+
+    def k_target(self, pred):
+        return self.pick(lambda e: e["mut"] and pred(e["type"]))
+
+    def k_source(self, t, **kw):
+        """a right-hand side of the type t: a literal or a variable holding such a value"""
+        y = self.pick(lambda e: e["type"].tag == t.tag and e["type"].k == t.k and (t.tag == "s" or (e["type"].r, e["type"].c) == (t.r, t.c)))
+        if y is not None and self.rng.random() < 0.3:
+            return y, ["var", q(y)]
+        e = self.same(t, **kw)
+        return e[0], e[1]
+
+    def k_mismatch(self, t):
+        """a right-hand side the sink's kernel must refuse: another kind, another form, another shape class"""
+        rng = self.rng
+        c = rng.random()
+        if c < 0.5:
+            k2 = self.other_kind(t.k)
+            e = self.scalar(k2) if t.tag == "s" else self.matrix(k2, t.r, t.c)
+        elif t.tag == "s":
+            e = self.matrix(t.k)
+        elif t.r == 1 and t.c >= 2:
+            e = self.matrix(t.k, t.c, 1) if c < 0.8 else self.scalar(t.k)
+        elif t.c == 1 and t.r >= 2:
+            e = self.matrix(t.k, 1, t.r)
+        else:
+            e = self.scalar(self.other_kind(t.k))
+        return e[0], e[1]
+
+    def k_assign(self, invalid):
+        rng = self.rng
+        if invalid:
+            if rng.random() < 0.5:
+                x = self.bad_target()
+                if x is None:
+                    return False
+                e = self.scalar(self.kind())[:2]
+            else:
+                x = self.k_target(lambda t: t.tag in ("s", "m"))
+                if x is None:
+                    return False
+                e = self.k_mismatch(self.env[x]["type"])
+            self.emit("asg", "%s = %s" % (x, e[0]), ["asg", q(x), e[1]], True)
+            return True
+        x = self.k_target(lambda t: t.tag in ("s", "m"))
+        if x is None:
+            return False
+        e = self.k_source(self.env[x]["type"])
+        self.emit("asg", "%s = %s" % (x, e[0]), ["asg", q(x), e[1]], False)
+        return True
+
+    def k_index(self, invalid):
+        rng = self.rng
+        two = rng.random() < 0.5
+        if invalid:
+            c = rng.random()
+            if c < 0.35:
+                x = self.bad_target()
+                if x is None:
+                    return False
+                k = self.kind()
+                i, j = rng.randint(1, 3), rng.randint(1, 3)
+            else:
+                x = self.k_target(lambda t: t.tag == "m") if c < 0.85 else self.k_target(lambda t: t.tag != "m")
+                if x is None:
+                    return False
+                t = self.env[x]["type"]
+                if t.tag != "m":
+                    k, i, j = (t.k or self.kind()), 1, 1
+                elif c < 0.6:                                   # out of range, right kind
+                    k = t.k
+                    i, j = rng.choice([(t.r + 1, 1), (1, t.c + 1), (0, 1)]) if two else (rng.choice([0, t.r * t.c + 1, t.r * t.c + 2]), 1)
+                else:                                           # in range, another kind
+                    k = self.other_kind(t.k)
+                    i, j = (rng.randint(1, t.r), rng.randint(1, t.c)) if two else (rng.randint(1, t.r * t.c), 1)
+        else:
+            x = self.k_target(lambda t: t.tag == "m")
+            if x is None:
+                return False
+            t = self.env[x]["type"]
+            k = t.k
+            i, j = (rng.randint(1, t.r), rng.randint(1, t.c)) if two else (rng.randint(1, t.r * t.c), 1)
+        v = kvalue(rng, k)
+        if two:
+            self.emit("ix2", "%s[%d,%d] = %s" % (x, i, j, klit(rng, k, v)), ["ix2", q(x), i, j, ksx(k, v) if k != "f64" else nsx(v)], invalid)
+        else:
+            self.emit("ix1", "%s[%d] = %s" % (x, i, klit(rng, k, v)), ["ix1", q(x), i, ksx(k, v) if k != "f64" else nsx(v)], invalid)
+        return True
+
+    def k_op(self, invalid):
+        rng = self.rng
+        if self.containers:
+            return False
+        if invalid:
+            op = rng.choice(["add", "sub", "mul"])
+            if rng.random() < 0.45:
+                x = self.bad_target()
+                if x is None:
+                    return False
+                e = self.scalar(self.kind())[:2]
+            else:
+                x = self.k_target(lambda t: t.tag in ("s", "m"))
+                if x is None:
+                    return False
+                e = self.k_mismatch(self.env[x]["type"])
+            self.emit("op", "%s %s %s" % (x, OPS[op], e[0]), ["op", q(x), op, e[1]], True)
+            return True
+        x = self.k_target(lambda t: t.tag in ("s", "m"))
+        if x is None:
+            return False
+        t = self.env[x]["type"]
+        k = t.k
+        op = rng.choice(["add", "sub", "add", "sub", "mul", "div"])
+        big = k in ms.INT_KINDS and rng.random() < 0.35          # large enough to overflow the 8-bit kinds now and then
+        if k == "f64":
+            if op in ("mul", "div"):
+                f = rng.choice([2.0, -1.0, 0.5, -2.0])
+                e = (nlit(f), ["num", nsx(f)])
+            elif t.tag == "m" and rng.random() < 0.5:
+                e = lit_of_type(rng, T("mat", r=t.r, c=t.c), nonneg=True)
+            else:
+                e = lit_of_type(rng, T("num"), nonneg=True)
+        elif k == "f32":
+            if op in ("mul", "div"):
+                f = rng.choice([2.0, -1.0, 0.5, -2.0, 4.0])
+                e = (klit(rng, k, f), ksx(k, f))
+            else:
+                e = self.k_source(t if rng.random() < 0.5 else KT("s", k))
+        elif k == "c64":
+            if op == "div":
+                op = "mul"
+            e = self.k_source(t if rng.random() < 0.5 else KT("s", k))
+        elif op == "div":
+            # integers and rationals: a zero divisor now and then (panics; in a matrix after some elements were stored)
+            zero = rng.random() < 0.3
+            tt = t if rng.random() < 0.6 else KT("s", k)
+            if tt.tag == "s":
+                v = 0 if zero else kvalue(rng, k, nonzero=True)
+                v = Fraction(v) if k == "r64" else v
+                e = (klit(rng, k, v), ksx(k, v))
+            else:
+                d = [kvalue(rng, k, nonzero=True) for _ in range(tt.r * tt.c)]
+                if zero:
+                    d[rng.randrange(len(d))] = Fraction(0) if k == "r64" else 0
+                e = (kmat_src(rng, k, tt.r, tt.c, d), kmat_sx(k, tt.r, tt.c, d))
+        else:
+            e = self.k_source(t if rng.random() < 0.5 else KT("s", k), big=big)
+        self.emit("op", "%s %s %s" % (x, OPS[op], e[0]), ["op", q(x), op, e[1]], False)
+        return True
+
+    def k_field(self, invalid):
+        rng = self.rng
+        x = self.k_target(lambda t: t.tag == "rec")
+        if invalid:
+            c = rng.random()
+            if c < 0.35 or x is None:
+                x = self.bad_target()
+                if x is None:
+                    return False
+                f, e = rng.choice(FIELDS), self.scalar(self.kind())
+            else:
+                t = self.env[x]["type"]
+                f, ft = rng.choice(t.elems)
+                if c < 0.6:
+                    e = self.scalar(self.other_kind(ft.k))
+                elif c < 0.8:
+                    f, e = "zz", self.scalar(ft.k)
+                else:
+                    e = self.matrix(ft.k)
+            self.emit("fld", "%s.%s = %s" % (x, f, e[0]), ["fld", q(x), q(f), e[1]], True)
+            return True
+        if x is None:
+            return False
+        f, ft = rng.choice(self.env[x]["type"].elems)
+        e = self.scalar(ft.k)
+        self.emit("fld", "%s.%s = %s" % (x, f, e[0]), ["fld", q(x), q(f), e[1]], False)
+        return True
+
+    def k_tix(self, invalid):
+        rng = self.rng
+        x = self.k_target(lambda t: t.tag == "tup")
+        if invalid:
+            c = rng.random()
+            if c < 0.35 or x is None:
+                x = self.bad_target()
+                if x is None:
+                    return False
+                i, e = rng.randint(1, 2), self.scalar(self.kind())
+            else:
+                t = self.env[x]["type"]
+                if c < 0.6:
+                    i = rng.choice([0, len(t.elems) + 1])
+                    e = self.scalar(self.kind())
+                else:
+                    i = rng.randint(1, len(t.elems))
+                    e = self.scalar(self.other_kind(t.elems[i - 1].k))
+            self.emit("tix", "%s.%d = %s" % (x, i, e[0]), ["tix", q(x), i, e[1]], True)
+            return True
+        if x is None:
+            return False
+        t = self.env[x]["type"]
+        i = rng.randint(1, len(t.elems))
+        e = self.scalar(t.elems[i - 1].k)                      # accepted for f64, i64, bool, string; refused for the rest
+        self.emit("tix", "%s.%d = %s" % (x, i, e[0]), ["tix", q(x), i, e[1]], False)
+        return True
+
+    # -- tables and sets of the other kinds (compared by their canonical form)
+    def k_container(self, invalid):
+        rng = self.rng
+        und = self.undefined()
+        tb = self.k_target(lambda t: t.tag == "tab")
+        c = rng.random()
+        if tb is None or (c < 0.3 and und and not invalid):
+            if not und or invalid:
+                return False
+            x = rng.choice(und)
+            mu = rng.random() < 0.8
+            pre = "~" if mu else ""
+            if rng.random() < 0.75:
+                ncol, rows = rng.randint(1, 2), rng.randint(2, 3)
+                cols = [(f, self.kind()) for f in FIELDS[:ncol]]
+                if any(k == "c64" for _, k in cols):
+                    return False
+                data = {f: [kvalue(rng, k) for _ in range(rows)] for f, k in cols}
+                if any(plain(k, v) is None for f, k in cols for v in data[f]):
+                    return False
+                src = "| " + " ".join("%s<%s>" % (f, k) for f, k in cols) + " | " + " | ".join(
+                    " ".join(plain(k, data[f][i]) for f, k in cols) for i in range(rows)) + " |"
+                val = ["table", rows] + [[q(f), q(k), [["s", k, ms.payload(k, v)] for v in data[f]]] for f, k in cols]
+                self.emit("def", "%s%s := %s" % (pre, x, src), ["def", int(mu), q(x), ["opq", val]], False)
+                self.env[x] = dict(type=KT("tab", elems=dict(cols=cols, rows=rows)), mut=mu)
+            else:
+                k = self.kind()
+                if k in ("bool", "c64"):
+                    return False
+                vals = []
+                for _ in range(rng.randint(1, 4)):
+                    v = kvalue(rng, k)
+                    if v not in vals:
+                        vals.append(v)
+                src = "{" + ", ".join(klit(rng, k, v) for v in vals) + "}"
+                val = ["set", q(k), len(vals), [["s", k, ms.payload(k, v)] for v in vals]]
+                self.emit("def", "%s%s := %s" % (pre, x, src), ["def", int(mu), q(x), ["opq", val]], False)
+                self.env[x] = dict(type=KT("set", k), mut=mu)
+            return True
+        t = self.env[tb]["type"].elems
+        cols, rows = t["cols"], t["rows"]
+        if c < 0.65:                                           # a column
+            f, k = rng.choice(cols)
+            n = rows
+            if invalid:
+                w = rng.random()
+                if w < 0.35:
+                    n = rows + rng.randint(1, 2)
+                elif w < 0.7:
+                    k = self.other_kind(k)
+                else:
+                    f = "zz"
+            e = self.matrix(k, n, 1)
+            self.emit("fld", "%s.%s = %s" % (tb, f, e[0]), ["fld", q(tb), q(f), e[1]], invalid)
+            return True
+        ats = []                                               # a row (always all the columns)
+        bad = rng.randrange(len(cols)) if invalid else -1
+        for i, (f, k) in enumerate(cols):
+            ats.append((f, self.scalar(self.other_kind(k) if i == bad else k)))
+        self.emit("op", "%s += {%s}" % (tb, ", ".join("%s: %s" % (f, a[0]) for f, a in ats)),
+                  ["op", q(tb), "add", ["rec"] + [[q(f), a[1]] for f, a in ats]], invalid)
+        if not invalid:
+            t["rows"] += 1
+        return True
+
+    def step(self):
+        rng = self.rng
+        invalid = rng.random() < self.p_invalid
+        gens = [(self.k_define, 5 if len(self.env) < len(self.names) else 2), (self.k_assign, 4), (self.k_index, 3),
+                (self.k_op, 5), (self.k_field, 2), (self.k_tix, 2), (self.k_container, 6 if self.containers else 0)]
+        if len(self.env) == 0:
+            gens = [(self.k_define, 8), (self.k_assign, 1), (self.k_container, 4 if self.containers else 0)]
+        for _ in range(14):
+            g = rng.choices([g for g, _ in gens], [w for _, w in gens])[0]
+            if g(invalid):
+                return
+            if rng.random() < 0.3:
+                invalid = not invalid
+        if not self.k_define(False):
+            self.k_define(True)
+
+
 def bucket(n, edges):
     for e in edges:
         if n <= e:
@@ -566,6 +1061,39 @@ def fixed_cases():
     ]
     for name, src, sxs in rows:
         yield dict(sx=sx(["hist"] + sxs), impl=dict(stmts=src), tags=dict(stream="fixed", name=name))
+    # the same witnesses and error cases for every kind
+    import random as _random
+    r0 = _random.Random(5)
+    for k in K_ALL:
+        one, two, three = {"bool": (True, False, True), "string": ("a", "bc", "d"), "c64": ((1.0, 2.0), (3.0, 4.0), (5.0, 6.0)),
+                           "r64": (Fraction(1, 2), Fraction(5, 3), Fraction(7, 1)), "f32": (1.5, 2.0, 7.0), "f64": (1.5, 2.0, 7.0)}.get(k, (1, 5, 7))
+        L = lambda v: klit(r0, k, v)
+        yield dict(sx=sx(["hist", ["def", 0, q("a"), ksx(k, one)], ["def", 1, q("b"), ["var", q("a")]], ["asg", q("b"), ksx(k, two)]]),
+                   impl=dict(stmts=["a := %s" % L(one), "~b := a", "b = %s" % L(two)]), tags=dict(stream="fixed", name="alias-define-" + k))
+        d = [one, two, three]
+        yield dict(sx=sx(["hist", ["def", 1, q("m"), kmat_sx(k, 1, 3, d)], ["def", 0, q("n"), ["var", q("m")]],
+                          ["ix1", q("m"), 1, ksx(k, three) if k != "f64" else nsx(three)]]),
+                   impl=dict(stmts=["~m := %s" % kmat_src(r0, k, 1, 3, d), "n := m", "m[1] = %s" % L(three)]),
+                   tags=dict(stream="fixed", name="alias-define-matrix-" + k))
+        yield dict(sx=sx(["hist", ["def", 0, q("x"), ksx(k, one)], ["def", 0, q("x"), ksx(k, two)], ["asg", q("x"), ksx(k, two)],
+                          ["asg", q("y"), ksx(k, two)], ["op", q("y"), "add", ksx(k, two)], ["op", q("x"), "add", ksx(k, two)],
+                          ["def", 1, q("x"), ksx(k, three)], ["def", 1, q("z"), ksx(k, three)], ["asg", q("z"), ksx(k, one)]]),
+                   impl=dict(stmts=["x := %s" % L(one), "x := %s" % L(two), "x = %s" % L(two), "y = %s" % L(two), "y += %s" % L(two),
+                                    "x += %s" % L(two), "~x := %s" % L(three), "~z := %s" % L(three), "z = %s" % L(one)]),
+                   tags=dict(stream="fixed", name="errors-" + k))
+    ks = lambda k, v: ["ks", k, v]
+    yield dict(sx=sx(["hist", ["def", 1, q("m"), ["km", "u8", 1, 3, [1, 100, 3]]], ["op", q("m"), "add", ks("u8", 200)]]),
+               impl=dict(stmts=["~m<[u8]:1,3> := [1 100 3]", "m += 200<u8>"]), tags=dict(stream="fixed", name="int-op-partial"))
+    yield dict(sx=sx(["hist", ["def", 1, q("m"), ["km", "u8", 1, 3, [4, 4, 4]]], ["op", q("m"), "div", ["km", "u8", 1, 3, [2, 0, 2]]]]),
+               impl=dict(stmts=["~m<[u8]:1,3> := [4 4 4]", "m /= [2<u8> 0<u8> 2<u8>]"]), tags=dict(stream="fixed", name="int-div-partial"))
+    yield dict(sx=sx(["hist", ["def", 1, q("x"), ks("r64", [3, 2])], ["op", q("x"), "div", ks("r64", [0, 1])]]),
+               impl=dict(stmts=["~x := 3/2", "x /= 0<r64>"]), tags=dict(stream="fixed", name="r64-div-zero"))
+    yield dict(sx=sx(["hist", ["def", 1, q("m"), ["km", "r64", 1, 3, [[1, 2], [1, 3], [1, 4]]]],
+                      ["op", q("m"), "div", ["km", "r64", 1, 3, [[1, 1], [0, 1], [1, 1]]]]]),
+               impl=dict(stmts=["~m := [1/2 1/3 1/4]", "m /= [1<r64> 0<r64> 1<r64>]"]), tags=dict(stream="fixed", name="r64-div-zero-matrix"))
+
+
+K_N = dict(quick=900, thorough=30000)
 
 
 def generate(tier, rng):
@@ -587,6 +1115,21 @@ def generate(tier, rng):
         for _ in range(length):
             h.step()
         yield make_case(h, stream)
+    # the other value kinds: 1-3 kinds per history so that same-kind interactions are frequent, all 16 over the run
+    nk = K_N[tier]
+    for i in range(nk):
+        names = rng.sample(NAMES_POOL, 5)
+        r = rng.random()
+        p_inv = 0.33 if r < 0.7 else (0.12 if r < 0.85 else 0.6)
+        kinds = [K_ALL[i % len(K_ALL)]] + rng.sample(K_ALL, rng.randint(0, 2))
+        cont = (i % 5 == 4)
+        h = KHist(rng, names, p_inv, kinds, containers=cont)
+        for _ in range(rng.randint(3, 22)):
+            h.step()
+        c = make_case(h, "kinds-containers" if cont else "kinds")
+        for k in sorted(h.kseen):
+            c["tags"]["kind_" + k] = 1
+        yield c
 
 
 def shrink(case):
